@@ -96,6 +96,9 @@ impl Check for Controller {
     fn components(&self) -> serde_json::Value {
         serde_json::json!({"real": ["examples/timelock-controller (from source): __check_auth, schedule_op, cancel_op, update_delay, AccessControl", "timelock storage", "access_control storage", "macros"], "stub": ["Wallet for proposer / executor / attacker"]})
     }
+    fn clock_step(&self, n: u32) -> Option<Step> {
+        Some(Step::Advance { n })
+    }
     fn dup_ok(&self, _s: &Step) -> bool {
         true
     }
